@@ -4,4 +4,5 @@ package main
 
 import (
 	_ "verifharness/sims/cache"
+	_ "verifharness/sims/lifecycle"
 )
